@@ -33,7 +33,9 @@ func c03Cfg() gen.Cfg {
 		"cafe\u0301", "a\u203fb", "l\u00b7l", "\u2167", "\u0915\u093e\u092e", "\u0e01\u0e34\u0e19", "x\u0663", "alpha",
 		"a ", " ", "two  spaces", "a\t", "x\n", "dot.", "a\U0001D800", "\U0002DC00z", "q\"", "tail\\", "9", "a-b", "a/",
 		// every word the lexer knows is also a key name
-		"abs", "lax", "date", "flag", "size", "time", "floor", "bigint", "double", "number", "starts", "string", "boolean", "ceiling", "decimal", "integer", "time_tz", "unknown", "datetime", "keyvalue", "timestamp", "like_regex", "timestamp_tz", "false"}
+		"abs", "lax", "date", "flag", "size", "time", "floor", "bigint", "double", "number", "starts", "string", "boolean", "ceiling", "decimal", "integer", "time_tz", "unknown", "datetime", "keyvalue", "timestamp", "like_regex", "timestamp_tz", "false",
+		// ... and a key keeps its letters as they are written, also where they spell a reserved word
+		"Type", "LAST", "Strict", "Time_TZ", "Exists", "IS", "tO", "Size", "KeyValue", "Like_Regex", "TRUE", "Null", "FLAG", "With", "Unknown", "LAX"}
 	cfg.VarNames = []string{"v", "w", "arr", "x_1", "é", "with space", "1", "日本", "a\"b", "\ufffd", "cafe\u0301", "a\u203fb", "\u0e01\u0e34", "two  spaces", "x\U0001DC00", "$$rate", "$x", "$", "$$"}
 	cfg.Strs = []string{"a", "ab", "", "x y", "\"", "\\", "\n", "\t\r\b\f\v", "é", "ÿ", "Ā", "퟿", "", "\U0001F600", "\U0010FFFF", "a\x01b", "\x7f", "\u0080", " ", "日本語", "'single'", "/* not a comment */", "\\u0041", "dir\\archive", "x\\U0001F600y\\", "\\\\a\\\\U", "\a\\a", "\ufffd", "x\ufffdy", "\ufffe\uffff", "\ufffd\ufffd",
 		"a  b", "  ", " lead", "trail ", "a   b  c", "\U0001D800", "x\U0001DFFF", "\U0002D800\U0002DC00", "\U0010DC00", "\U000FD800z", "\U0001D7FF\U0001E000"}
